@@ -302,9 +302,21 @@ def _has_zero(ref, name, depth=0):
     return False
 
 
+def generated_collisions(ref):
+    """Names of bare definitions (constant, string constant, alias, host id, struct) that equal a name the compilers generate
+    for another definition (MT_x, MDF_x, HASH_x, MID_x, HID_x)."""
+    gen = {p + n for p, tb in (("MT_", "mt"), ("MID_", "mid"), ("HID_", "hid")) for n in ref[tb]}
+    gen |= {p + n for p in ("MDF_", "HASH_") for n, d in ref["defs"].items() if d["cat"] == "message"}
+    bare = set(ref["constants"]) | set(ref["strings"]) | set(ref["aliases"]) | set(ref["hid"]) | {n for n, d in ref["defs"].items() if d["cat"] == "struct"}
+    return bare & gen
+
+
 def _qualifier(ref, aspect, where):
     """Construct class a difference belongs to (part of the finding key)."""
     top = where.split(".")[0]
+    coll = generated_collisions(ref)
+    if coll and (aspect.startswith("load/") or any(top == c.split("_", 1)[1] or top == c for c in coll)):
+        return "generated-name-collision"
     if any(p in top for p in PREFIXES) and ("missing" in aspect):
         return "name-contains-" + next(p for p in PREFIXES if p in top)
     if top in ref["defs"] and _has_zero(ref, top):
